@@ -77,22 +77,52 @@ def pushtoken(token, tokens):
         yield t
 
 
+_string_newlines = {'\n': '\\a ', '\r': '\\d ', '\f': '\\c '}   # \n = 0xa, \r = 0xd, \f = 0xc
+_hexdigits = '0123456789abcdefABCDEF'
+
+
 def string(value):
     """
     Serialize value with quotes e.g.::
 
         ``a \'string`` => ``'a \'string'``
+
+    A backslash of the value is written so that the tokenizer and
+    ``stringvalue`` read exactly the value again: as it is where that is
+    safe (``\\\\`` and ``\\g`` stay), as ``\\5c`` in front of a hex
+    digit (it would start another escape) and doubled at the end of the
+    value.
     """
-    # \n = 0xa, \r = 0xd, \f = 0xc
-    value = value.replace('\n', '\\a ').replace(
-        '\r', '\\d ').replace(
-        '\f', '\\c ').replace(
-        '"', '\\"')
+    out = []
+    # 0: normal, 1: a backslash that starts an escape is pending,
+    # 2: the second backslash of a ``\\\\`` pair is pending
+    state = 0
+    for c in value:
+        if state == 1:
+            if c == '\\':
+                out.append('\\')
+                state = 2
+                continue
+            out.append('\\5c ' if c in _hexdigits else '\\')
+            state = 0
+        elif state == 2:
+            if c == '\\':
+                out.append('\\')
+                state = 1
+                continue
+            out.append('\\5c ' if c in _hexdigits else '\\')
+            state = 0
+        elif c == '\\':
+            state = 1
+            continue
+        out.append('\\"' if c == '"' else _string_newlines.get(c, c))
 
-    if value.endswith('\\'):
-        value = value[:-1] + '\\\\'
+    if state == 1:
+        out.append('\\\\')
+    elif state == 2:
+        out.append('\\\\5c ')
 
-    return '"%s"' % value
+    return '"%s"' % ''.join(out)
 
 
 def stringvalue(string):
